@@ -5,6 +5,11 @@
 LEX_TB = ["lexer modelled byte-wise instead of rune-wise (equivalence argued in Model/Lex.lean, checked by the lex suite over an alphabet with multi-byte and invalid UTF-8 bytes)"]
 
 PROPS = {
+    "C03": {
+        "suites": [{"name": "c03-routes", "proj": ["ban"]}, {"name": "c03-hist", "proj": ["hist", "driver"]}],
+        "trusted_base": ["tools/extract's ban-site analysis (which functions look a tag/filter up by a non-constant name, and whether the function, all its callers, or the node's parser consult the ban list)", "whole-tree soundness (no banned name anywhere in a compiled tree incl. sub-templates) is decided by the route x file-composition suite, not yet by one theorem"],
+        "assumptions": ["every registered tag and filter (enumerated through the VerifRegistered* hooks) is used as ban target on every syntactic and file-composition route; probe filter/tag count invocations"],
+    },
     "C06": {
         "suites": [
             {"name": "lex", "proj": ["tokens", "panic"]},
